@@ -8,7 +8,7 @@ use crate::report::{par_run, Report};
 use crate::rng::Rng;
 use serde_json::json;
 
-pub const RULE: &str = "All 22 indicators (multipliers incl. MIN_POSITIVE, 5e-324, f64::MAX, NaN) x periods {1,2,7,64,512} (+ sampled 1..=512) x stream shapes {strictly increasing, strictly decreasing, alternating, flat, random walk, uniform random, one NaN then non-increasing, +-inf then flat, finite values of magnitude 1e-300..1e300, a feed of recurring bad ticks (crossed bars, non-finite fields, both at once), all zeros, halts of doubling length, volumes of 5e14 per bar} x scalar/bar feed: after a warm-up of n+2 inputs the thread-local live-heap counter of the harness's counting GlobalAlloc is read, N further inputs (10^5 quick - 1.1*10^6 for the period-7 random-walk runs - and 10^6 thorough) generated in place (no harness allocation in between) are fed, and it is read again: growth must be <= 256 + 64*sum(periods) bytes (allocation count in steady state reported). bincode::serialized_size is sampled at every step of the first 3n+10 inputs and at 64 checkpoints of the long run: always <= the same bound (constancy after the first input reported). A second phase repeats, on one instance per (indicator, period in {1,7,64,65,200,512}), R cycles of {feed n+5 inputs, reset} / {clone, drop} / {serialize, deserialize, swap} / {clone_from from a checkpoint instance}: live heap after the cycles must be within the same bound of live heap after the first cycle (a per-reset, per-clone or per-restore leak grows linearly). Non-trivial: every run (stream far longer than the window); distinct by construction (indicator, period, shape, feed).";
+pub const RULE: &str = "All 22 indicators (multipliers incl. MIN_POSITIVE, 5e-324, f64::MAX, NaN) x periods {1,2,7,64,512} (+ sampled 1..=512) x stream shapes {strictly increasing, strictly decreasing, alternating, flat, random walk, uniform random, one NaN then non-increasing, +-inf then flat, finite values of magnitude 1e-300..1e300, a feed of recurring bad ticks (crossed bars, non-finite fields, both at once), all zeros, halts of doubling length, volumes of 5e14 per bar, outages of 1 500 NaN inputs} x scalar/bar feed: after a warm-up of n+2 inputs the thread-local live-heap counter of the harness's counting GlobalAlloc is read, N further inputs (10^5 quick - 1.1*10^6 for the period-7 random-walk runs - and 10^6 thorough) generated in place (no harness allocation in between) are fed, and it is read again: growth must be <= 256 + 64*sum(periods) bytes (allocation count in steady state reported). bincode::serialized_size is sampled at every step of the first 3n+10 inputs and at 64 checkpoints of the long run: always <= the same bound (constancy after the first input reported). A second phase repeats, on one instance per (indicator, period in {1,7,64,65,200,512}), R cycles of {feed n+5 inputs, reset} / {clone, drop} / {serialize, deserialize, swap} / {clone_from from a checkpoint instance}: live heap after the cycles must be within the same bound of live heap after the first cycle (a per-reset, per-clone or per-restore leak grows linearly). Non-trivial: every run (stream far longer than the window); distinct by construction (indicator, period, shape, feed).";
 
 #[derive(Clone, Copy, Debug, PartialEq)]
 pub enum Shape {
@@ -36,8 +36,10 @@ pub enum Shape {
     /// a steadily rising close with volumes around 5e14 per bar (a cumulative volume that leaves the range
     /// in which f64 counts exactly after a few bars, and keeps going)
     HugeVolume,
+    /// the feed drops out for 1 500 inputs in every 4 096 (NaN), then resumes
+    Outages,
 }
-pub const SHAPES: [Shape; 13] = [Shape::Increasing, Shape::Decreasing, Shape::Alternating, Shape::Flat, Shape::Walk, Shape::Uniform, Shape::NanThenDecreasing, Shape::InfThenFlat, Shape::WideMagnitude, Shape::BadTicks, Shape::Zeros, Shape::Halts, Shape::HugeVolume];
+pub const SHAPES: [Shape; 14] = [Shape::Increasing, Shape::Decreasing, Shape::Alternating, Shape::Flat, Shape::Walk, Shape::Uniform, Shape::NanThenDecreasing, Shape::InfThenFlat, Shape::WideMagnitude, Shape::BadTicks, Shape::Zeros, Shape::Halts, Shape::HugeVolume, Shape::Outages];
 
 pub struct ShapeGen {
     shape: Shape,
@@ -84,6 +86,7 @@ impl ShapeGen {
                 }
             }
             Shape::Zeros => 0.0,
+            Shape::Outages => if self.i > 100 && self.i % 4096 < 1500 { f64::NAN } else { 60.0 + ((self.i * 11) % 23) as f64 * 0.5 },
             Shape::HugeVolume => 100.0 + self.i as f64 * 0.125,
             Shape::Halts => 100.0 + (64 - self.i.leading_zeros()) as f64 * 0.25,
             Shape::BadTicks => {
